@@ -8,10 +8,13 @@ import verif "github.com/vedadiyan/genql/zz_verif"
 // of '...' literals and `...` identifiers are untouched.
 func H_C17_dq() {
 	maxLen := 5 + verif.Tier()
-	withBackslash := verif.Choose("backslash", 2)
+	withBackslash := verif.Choose("backslash", 3)
 	alpha := "\"'`[]a, \xc3"
 	if withBackslash == 1 {
 		alpha = "\"'\\a`"
+	}
+	if withBackslash == 2 {
+		alpha = "\"-a \n" // minus signs: `--` opens a comment only before a blank
 	}
 	checkDQ(verif.Str("s", maxLen, alpha))
 }
@@ -61,6 +64,11 @@ func checkDQ(s string) {
 		for i := range class {
 			if class[i] == verif.TokString && s[start[i]] == '"' {
 				if oclass[i] != verif.TokIdent || oval[i] != val[i] {
+					ok = false
+				}
+			} else if class[i] == verif.TokComment {
+				// the text of a comment may change (a quote inside it is rewritten): harmless
+				if otyp[i] != typ[i] {
 					ok = false
 				}
 			} else if otyp[i] != typ[i] || oval[i] != val[i] {
